@@ -3,3 +3,4 @@ pub mod walk;
 pub mod xref;
 pub mod src;
 pub mod vf;
+pub mod summary;
